@@ -23,6 +23,8 @@ WIDEN_AFTER = 3
 W = "W!"   # marker carried in the taint set: the interval was produced by widening (loop / summary), i.e. it is an
            # artefact of the abstraction and not positive evidence about attacker-controlled values
 WSET = frozenset([W])
+U = "U!"   # marker: value of unknown origin/range (foreign call result, run-time length, iterator item)
+USET = frozenset([U])
 REL = -2   # state key holding a frozenset of (a, b) facts: local a <= local b (single-definition integer locals)
 
 
@@ -108,6 +110,10 @@ def vjoin(a, b):
         return a
     if a[0] is None or b[0] is None:
         return (None, None, a[2] | b[2], False)
+    if a[0] == "bot":
+        return (b[0], b[1], a[2] | b[2], b[3])
+    if b[0] == "bot":
+        return (a[0], a[1], a[2] | b[2], a[3])
     return (min(a[0], b[0]), max(a[1], b[1]), a[2] | b[2], a[3] and b[3])
 
 
@@ -583,7 +589,7 @@ class FnPass:
                     sv = self.static_value(sid) if sid else None
                     if isinstance(sv, list):
                         return (len(sv), len(sv), EMPTY, False)
-                return (0, 2**63 - 1, v[2], False) if dest_ty == "usize" else top_of(dest_ty)
+                return (0, 2**63 - 1, v[2] | USET, False) if dest_ty == "usize" else top_of(dest_ty)
             t = top_of(dest_ty)
             return (t[0], t[1], v[2], False)
         if k == "ref":
@@ -1656,9 +1662,21 @@ class FnPass:
                     status = "undecided"
         elif kind in ("DivisionByZero", "RemainderByZero"):
             okind = "divzero"
-            d = vals[0]
-            if d[0] is not None and d[0] != "bot":
-                status = "safe" if (d[0] > 0 or d[1] < 0) else "unsafe"
+            # the assert message carries the dividend; the divisor is in the condition `divisor == 0`
+            c = self.cond_of_operand(cond)
+            cc = c
+            while cc is not None and cc[0] == "not":
+                cc = cc[1]
+            if cc is not None and cc[0] == "cmp":
+                dv_ops = [o for o in (cc[2], cc[3]) if self._const_int(o) != 0]
+                dvals = [self.read_operand(st, o) for o in dv_ops]
+                ops = dv_ops
+                vals = dvals
+                taint = EMPTY
+                for v in vals:
+                    taint = taint | v[2]
+                if c is not None:
+                    status = "safe" if self.apply_cond(st, c, not expected) is None else "unsafe"
         elif kind == "OverflowNeg":
             okind = "overflow"
             d = vals[0]
@@ -1812,7 +1830,7 @@ class FnPass:
         if callee is None:
             # indirect call
             t = top_of(dty)
-            result = (t[0], t[1], ataint, False)
+            result = (t[0], t[1], ataint | USET, False)
         elif READ_RE.match(callee) or callee.endswith("SketchSlice::<'_>::read_exact") or callee.endswith("SketchSlice::<'_>::remaining"):
             result = self.foreign_call(b, st, site, callee, args, avals, ataint, dty)
         elif callee in prog.fns and (an.scope is None or callee in an.scope):
@@ -1870,9 +1888,9 @@ class FnPass:
                     res = vjoin(res, r) if (res is None or (res[0] != "bot" and r[0] != "bot")) else (res if r[0] == "bot" else r)
             t = top_of(dty)
             if res is None or res[0] is None or res[0] == "bot":
-                result = (t[0], t[1], ataint | (res[2] if res else EMPTY), False)
+                result = (t[0], t[1], ataint | USET | (res[2] if res else EMPTY), False)
             else:
-                result = (t[0], t[1], ataint | res[2], False)
+                result = (t[0], t[1], ataint | USET | res[2], False)
         else:
             result = self.foreign_call(b, st, site, callee, args, avals, ataint, dty)
 
@@ -1996,7 +2014,7 @@ class FnPass:
                         rv_ = self.get(st, r)
                         if rv_[0] is not None and rv_[0] != "bot":
                             return (rv_[0], rv_[1], ataint | rv_[2], False)
-            return (t[0], t[1], ataint, False)
+            return (t[0], t[1], ataint | USET, False)
         if callee == "<I as std::iter::IntoIterator>::into_iter" and pt is not None and num0:
             return mk(a0[0], a0[1], a0[3])
         # pass-through wrappers
@@ -2039,7 +2057,8 @@ class FnPass:
         if name == "len" and pt == "usize":
             # the length of a buffer is not tainted by the buffer's contents
             il = self._is_input_slice(args[0])
-            return (0, 2**63 - 1, EMPTY, il)
+            al = frozenset("AL:" + x[2:] for x in (a0[2] if a0 else ()) if x.startswith("A:"))
+            return (0, 2**63 - 1, al if al else USET, il)
         if name in ("position", "remaining", "remaining_len") and pt is not None:
             return mk(0, 2**63 - 1, name != "position")
         if name in ("saturating_sub",) and num0 and num1:
@@ -2091,7 +2110,7 @@ class FnPass:
             return (c[0], c[1], ataint, a0[3])
         if name == "count" and pt == "usize":
             return mk(0, 2**63 - 1)
-        return (t[0], t[1], ataint, False)
+        return (t[0], t[1], ataint | USET, False)
 
     def _is_input_slice(self, op):
         """operand is (a reference to) a `&[u8]` parameter of this function"""
